@@ -109,6 +109,11 @@ def corpus_lines(w, rng, tname):
             lb, b = rng.choice(amounts(w.be, rng, 2))
             lines += [f"conv {tname} {i} {j} {a}", f"add {tname} {i} {a} {j} {b}", f"cmp {tname} {i} {a} {j} {b}",
                       f"fmt {tname} {i} {a} nr10 14 3"]
+    # every sign class of zero and a negative amount under the flags that treat the sign specially
+    for i in range(n):
+        for a in ("x8000000000000000", "x0000000000000000", "xbff8000000000000"):
+            for spec in ("nn00 - -", "nn10 - -", "nn00 - 3", "nr10 12 2", "nn01 9 1", "sc00 11 -"):
+                lines.append(f"fmt {tname} {i} {a} {spec}")
     lines.append(f"reg {tname}")
     return lines
 
@@ -143,7 +148,8 @@ def extra(tier, seed):
         for feat in picks:
             vdir = os.path.join(root, f"harness_{feat}")
             mods_needed = [feat]
-            gen_harness.write_variant(pl.VERIF, pl.REPO, vdir, [feat], closure_modules(tables, feat))
+            # the minimal configuration: this one feature (and what it pulls in), WITHOUT the standard library
+            gen_harness.write_variant(pl.VERIF, pl.REPO, vdir, [feat], closure_modules(tables, feat), default_features=False)
             env = dict(pl.ENV, CARGO_TARGET_DIR=os.path.join(pl.CACHE, "target-gen-c19-min"), RUSTFLAGS="-Awarnings")
             hf = "serde" + (",temp" if feat == "temperature" else "")   # serde on: same as the full harness
             p = subprocess.run(["cargo", "build", "--features", hf, "--message-format=short"], cwd=vdir, env=env,
@@ -161,7 +167,7 @@ def extra(tier, seed):
             for l, x, y in zip(lines, a, b):
                 cov["corpus_lines_compared"] += 1
                 if x != y:
-                    what = f"result of `{l}` changes when further features are enabled"
+                    what = f"result of `{l}` changes when further features (the other quantities, std) are enabled"
                     fails.append(dict(feature=feat, op=l, minimal=x, full=y, what=what, oracle="FAIL:" + what))
                     break
     cov["evaluations"] = cov["configurations"] + cov["corpus_lines_compared"]
